@@ -3,6 +3,9 @@
 mod api;
 mod c01;
 mod c02;
+mod c03;
+mod c09;
+mod c10;
 mod hist;
 mod plat;
 mod run;
@@ -26,6 +29,9 @@ fn main() {
     let (rep, rule) = match args.monitor.as_str() {
         "c01" => (c01::run(&args), c01::RULE),
         "c02" => (c02::run(&args), c02::RULE),
+        "c03" => (c03::run(&args), c03::RULE),
+        "c09" => (c09::run(&args), c09::RULE),
+        "c10" => (c10::run(&args), c10::RULE),
         "xcheck" => {
             xcheck::run(&args);
             return;
